@@ -110,6 +110,24 @@ theorem sync_process_writes (ctx : Ctx) (cur : Env) (hok : EnvOk ctx cur) (body 
     commitInto ctx body (execRtl ctx cur body cur) acc = applyWrites ctx cur (stmtWrites ctx cur body) acc :=
   sync_process_effect ctx cur hok body acc hC hA htg hown
 
+/-- … in terms of the program as written: the synchronous process of a DSL program changes the shared state by
+exactly the program's active assignments (first selected branch / first matching case, program order, last write
+wins per bit). -/
+theorem sync_process_program (ctx : Ctx) (cur : Env) (hok : EnvOk ctx cur) (prog : List Prog)
+    (h : Prog.listOk ctx prog = true) (acc : Env) (hC : EnvN ctx cur) (hA : EnvN ctx acc)
+    (htg : ∀ e ∈ stmtTargets (lowerList ctx prog), e.twf ctx = true ∧ e.noAlias ctx cur)
+    (ht : ∀ w ∈ Prog.listWrites ctx cur prog, w.1.twf ctx = true ∧ w.1.noAlias ctx cur)
+    (hown : ∀ i b, i < ctx.length → b < (ctx.shape i).width →
+      ibit ((stmtMask ctx (lowerList ctx prog) (List.replicate ctx.length 0)).get i) b = true →
+      bitAt acc i b = bitAt cur i b) :
+    commitInto ctx (lowerList ctx prog) (execRtl ctx cur (lowerList ctx prog) cur) acc =
+      applyWrites ctx cur (Prog.listWrites ctx cur prog) acc := by
+  rw [sync_process_writes ctx cur hok (lowerList ctx prog) acc hC hA htg hown]
+  have hws : ∀ w ∈ stmtWrites ctx cur (lowerList ctx prog), w.1.twf ctx = true ∧ w.1.noAlias ctx cur :=
+    fun w hw => htg _ (stmtWrites_targets ctx cur _ w hw)
+  rw [← (applyWritesRtl_eq_spec ctx cur hok _ hws acc hA).1, ← execRtl_eq_writes,
+      statements_spec ctx cur hok prog h ht acc hA]
+
 /-! ### F9: without `noAlias` the compiled assignment is not the Spec's
 
 `Cat(t, t).bit_select(o, 1).eq(1)` with `t = 0`, `o = 0`: the Spec (and the testbench, and the netlist)
